@@ -1,6 +1,9 @@
 import Avfs.Lemmas.Search
 import Avfs.Lemmas.StepFacts
 import Avfs.Lemmas.PathMore
+import Avfs.Conc.Theorems
+import Avfs.Conc.Allowed
+import Avfs.Generated.Locks
 /-
   C07 — every call returns: no deadlock, hang or panic.  Part (a): no panic / no hang, sequentially, for every argument.
   The models return `.panic` / `.hang` exactly where the Go code would index out of range, dereference nil or lock a
@@ -32,5 +35,19 @@ theorem C07_match_no_panic (os : OS) (pat name : Bytes) : pmatch os pat name ≠
 
 theorem C07_splitAbs_no_panic (p : Bytes) (h : isAbs .linux p = true) : (splitAbs .linux p).isSome = true :=
   splitAbs_abs_linux p h
+
+/-! Parts (b) and (c): locks.  The lock facts are regenerated from the source on every run (harness/cmd/lockx). -/
+
+/-- (b) no function acquires a lock it certainly already holds -/
+theorem C07_no_self_acquire : Conc.selfAcquire Generated.lockFacts = [] := by decide +kernel
+
+/-- (b) the nested acquisitions of the CURRENT source are exactly the listed ones, each with its reason why the two
+    locks are different objects (or its ledger entry) -/
+theorem C07_nested_acquisitions : Conc.sameSet (Conc.nested Generated.lockFacts) Conc.expectedNested = true := by decide +kernel
+
+/-- (c) generic: if every thread only waits for a lock ranked strictly above all the locks it holds, no set of threads
+    is deadlocked — for any number of threads -/
+theorem C07_ranked_deadlock_free {T L : Type} [DecidableEq T] [DecidableEq L] (w : Conc.WaitSt T L) (hc : w.Consistent)
+    (rank : L → Nat) (hr : w.Ranked rank) : ¬ w.Deadlocked := Conc.ranked_deadlock_free w hc rank hr
 
 end Avfs.FS
